@@ -129,6 +129,11 @@ func (dps *DefaultPathStrategy) GetRequestInfo(urlCtx base.UrlContext, rootOutPa
 		ri.FileNameWithPath = filepath.Join(rootOutPath, ri.StreamName, filename)
 	}
 
+	// 流名称来自请求的uri，不能让它跳出rootOutPath（比如 "..-1-2.ts" 或 "...m3u8" 解析出的流名称是 ".."）
+	if ri.StreamName == "." || ri.StreamName == ".." || strings.ContainsAny(ri.StreamName, "/\\") {
+		return RequestInfo{}
+	}
+
 	return
 }
 
